@@ -171,3 +171,48 @@ def show_sigma(sigma, show):
         txt = '%s(%s)' % (k[0], ', '.join(show(x) for x in k[1:]))
         out.append(txt if v else 'not ' + txt)
     return ' & '.join(out)
+
+
+def truth_function(path_vals, constraint=None):
+    """Read a boolean-valued function off its paths.  path_vals: [(conds, value)] where value is a term (read as a
+    truth value), or a string tag ('raise', ...).  -> (atoms, rows): rows = [(sigma, results)] with results the set of
+    bool / tag values of all paths that can run under sigma.  `constraint(sigma)` filters impossible assignments."""
+    items = []
+    atoms = set()
+    for conds, val in path_vals:
+        pf = path_formula(conds)
+        vf = formula(val) if isinstance(val, tuple) else None
+        atoms_of(pf, atoms)
+        if vf is not None:
+            atoms_of(vf, atoms)
+        items.append((pf, vf, val))
+    atoms = sorted(atoms, key=repr)
+    if len(atoms) > MAX_ATOMS:
+        raise ValueError('%d elementary tests' % len(atoms))
+    rows = []
+    for vals in itertools.product((False, True), repeat=len(atoms)):
+        sigma = dict(zip(atoms, vals))
+        if constraint is not None and not constraint(sigma):
+            continue
+        res = set()
+        for pf, vf, val in items:
+            if holds(pf, sigma):
+                res.add(holds(vf, sigma) if vf is not None else val)
+        rows.append((sigma, res))
+    return atoms, rows
+
+
+def any_of(sigma, atoms):
+    return any(sigma[a] for a in atoms)
+
+
+def satisfiable(conds, constraint=None):
+    pf = path_formula(conds)
+    atoms = sorted(atoms_of(pf), key=repr)
+    if len(atoms) > MAX_ATOMS:
+        return True
+    for vals in itertools.product((False, True), repeat=len(atoms)):
+        sigma = dict(zip(atoms, vals))
+        if (constraint is None or constraint(sigma)) and holds(pf, sigma):
+            return True
+    return False
